@@ -255,3 +255,26 @@ M("C17", "lockstep-conditional", "results.py", "            parameter_values.app
 M("C17", "twin-pop-comprehension", "problem.py", "        individuals = []\n        for individual in self.individuals:\n            if individual.population_id == population_id:\n                individuals.append(individual)\n\n        return individuals\n\n    def last_population", "        return [individual for individual in self.individuals if individual.population_id == population_id]\n\n    def last_population", "H")
 M("C17", "twin-gd-mean", "quality_indicator.py", "return np.sum(minimums) / len(computed)", "return np.mean(minimums)", "H")
 M("C17", "twin-find-opt-order", "results.py", "        if criteria == 'minimize' or criteria is None:", "        if criteria is None or criteria == 'minimize':", "H")
+
+# ---------------------------------------------------------------- C04
+M("C04", "verdicts-crossed", "archive.py", "                if is_dominated_flag == 1:\n                    del self._contents[index - number_of_deleted_solutions]\n                    number_of_deleted_solutions += 1\n                elif is_dominated_flag == 2:", "                if is_dominated_flag == 2:\n                    del self._contents[index - number_of_deleted_solutions]\n                    number_of_deleted_solutions += 1\n                elif is_dominated_flag == 1:")
+M("C04", "args-swapped", "archive.py", "self._dominance.compare(individual.costs_signed, current_solution.costs_signed)", "self._dominance.compare(current_solution.costs_signed, individual.costs_signed)")
+M("C04", "dup-test-dropped", "archive.py", "                    if individual.costs_signed == current_solution.costs_signed:\n                        is_contained = True\n                        break\n", "                    pass\n")
+M("C04", "dup-test-inverted", "archive.py", "if individual.costs_signed == current_solution.costs_signed:", "if individual.costs_signed != current_solution.costs_signed:")
+M("C04", "snapshot-dropped", "archive.py", "for index, current_solution in enumerate(list(self._contents)):", "for index, current_solution in enumerate(self._contents):")
+M("C04", "counter-not-incremented", "archive.py", "                    del self._contents[index - number_of_deleted_solutions]\n                    number_of_deleted_solutions += 1\n", "                    del self._contents[index - number_of_deleted_solutions]\n")
+M("C04", "index-uncorrected", "archive.py", "del self._contents[index - number_of_deleted_solutions]", "del self._contents[index]")
+M("C04", "flag-wrong-on-reject", "archive.py", "            self._contents.append(individual)\n            return True\n\n        return False\n", "            self._contents.append(individual)\n            return True\n\n        return True\n")
+M("C04", "insert-despite-dominated", "archive.py", "        if not is_dominated and not is_contained:", "        if not is_dominated or not is_contained:")
+M("C04", "break-after-delete", "archive.py", "                    number_of_deleted_solutions += 1\n                elif", "                    number_of_deleted_solutions += 1\n                    break\n                elif")
+M("C04", "truncate-smallest", "archive.py", "        if larger_preferred:\n            result.reverse()\n", "        if not larger_preferred:\n            result.reverse()\n")
+M("C04", "truncate-suffix", "archive.py", "self._contents = result[:size]", "self._contents = result[-size:]")
+M("C04", "truncate-other-key", "archive.py", "result = sorted(self._contents, key=lambda x: x.features[getter])", "result = sorted(self._contents, key=lambda x: x.costs[0])")
+M("C04", "truncate-size-plus", "archive.py", "self._contents = result[:size]", "self._contents = result[:size + 1]")
+M("C04", "append-bypasses-add", "archive.py", "    def append(self, individual):\n        self.add(individual)", "    def append(self, individual):\n        self._contents.append(individual)")
+M("C04", "double-append", "archive.py", "        if not is_dominated and not is_contained:\n            self._contents.append(individual)\n            return True", "        if not is_dominated and not is_contained:\n            self._contents.append(individual)\n            self._contents.append(individual)\n            return True")
+M("C04", "empty-fast-path-no-flag", "archive.py", "        if len(self._contents) == 0:\n            self._contents.append(individual)\n            return True", "        if len(self._contents) == 0:\n            self._contents.append(individual)\n            return False")
+# twins
+M("C04", "twin-remove-member", "archive.py", "                    del self._contents[index - number_of_deleted_solutions]\n                    number_of_deleted_solutions += 1\n", "                    self._contents.remove(current_solution)\n", "H")
+M("C04", "twin-sorted-reverse-kw", "archive.py", "        result = sorted(self._contents, key=lambda x: x.features[getter])\n\n        if larger_preferred:\n            result.reverse()\n", "        result = sorted(self._contents, key=lambda x: x.features[getter], reverse=larger_preferred)\n", "H")
+M("C04", "twin-slice-copy", "archive.py", "enumerate(list(self._contents))", "enumerate(self._contents[:])", "H")
